@@ -836,6 +836,9 @@ def classify_restore_failure(case, res, i, value_level=False):
     d = diff_maps(B["before"], B["after"])
     base = {"call": "to_module as context manager"}
     untouched = "pre_exit" in B and same_maps(B["pre_exit"], B["after"]) and same_vals(B["pre_exit"], B["after"])
+    if value_level and tied_inplace(case, i):
+        # (checked first: with equal supplied values 'first supplied value left behind' and 'nothing undone' look alike)
+        return [(dict(base, defect="inplace-tied-values-not-restored", site="_td._set_tensor_dict"), [])]
     if blk["swap_dest"] and B.get("exit") == "TypeError" and untouched and not blk["manual"]:
         # the inverse was attempted (whatever the body did) and died on the repeated keyword before touching the module
         return [(dict(base, defect="swap_dest-kwarg-repeated-on-exit", site="_contextlib._reverse_to_module"), sorted(d))]
